@@ -617,6 +617,125 @@ def kernel_copy_checks(tier):
     return sum(a for a, _, _ in res), sum(b for _, b, _ in res), found, {"layouts": len(layouts), "deviation_bound": bound, "answers": KC_ANSWERS}
 
 
+# ---------------------------------------------------------------------------
+# External tensors produced by the library itself, under histories of writes, reads and releases on ONE path
+
+XH_OPS = ["W_A", "W_B", "W_C", "R0", "R1", "X0", "GC"]
+XH_CONTENT = {
+    # two tensors of equal byte size; A and B differ in content only, C in sizes too
+    "A": ([1.0, 2.0, 3.0], [4.0, 5.0, 6.0]),
+    "B": ([7.0, 8.0, 9.0], [10.0, 11.0, 12.0]),
+    "C": ([13.0, 14.0], [15.0, 16.0, 17.0, 18.0, 19.0]),
+}
+
+
+def _xh_run(history, names, entry, dtype_name):
+    """Execute one history on a fresh directory. Returns a list of (clause, detail)."""
+    import gc
+
+    from onnx_ir import external_data as xd
+
+    dt = DT[dtype_name]
+    root = common.scratch_dir("c04xh")
+    bad = []
+    latest = None  # [(tensor, expected_bytes, expected_values)]
+    keep = []  # everything ever read stays referenced (an application holding on to its tensors)
+    try:
+        for k, op in enumerate(history):
+            if op.startswith("W_"):
+                vals = XH_CONTENT[op[2:]]
+                tensors = []
+                for i, v in enumerate(vals):
+                    nm = "bias" if names == "same" else f"bias_{i}"
+                    arr = np.array(v, dtype=np.float32)
+                    tensors.append(ir.Tensor(arr.astype(dt.numpy()) if dt != DT.FLOAT else arr, dtype=dt, name=nm))
+                want = [(t.tobytes(), t.numpy().copy()) for t in tensors]
+                if entry == "convert":
+                    ext = xd.convert_tensors_to_external(tensors, root, "d.bin")
+                else:
+                    # two sibling branches of an If, each owning one initializer (equal names are legal there)
+                    vs = [ir.Value(name=t.name, const_value=t, type=ir.TensorType(dt), shape=ir.Shape(list(t.shape.numpy()))) for t in tensors]
+                    c = ir.Value(name="c", type=ir.TensorType(DT.BOOL), shape=ir.Shape([]))
+                    bodies = []
+                    for j, v in enumerate(vs):
+                        n = ir.node("Identity", [v], name=f"id_{j}")
+                        n.outputs[0].name = f"o_{j}"
+                        bodies.append(ir.Graph([], [n.outputs[0]], nodes=[n], initializers=[v], name=f"b{j}"))
+                    ifn = ir.node("If", [c], attributes={"then_branch": bodies[0], "else_branch": bodies[1]}, name="if")
+                    ifn.outputs[0].name = "r"
+                    m = ir.Model(ir.Graph([c], [ifn.outputs[0]], nodes=[ifn], opset_imports={"": 21}, name="g"), ir_version=10)
+                    mp = os.path.join(root, "m.onnx")
+                    ir.save(m, mp, external_data="d.bin")
+                    m2 = ir.load(mp)
+                    node = m2.graph[0]
+                    ext = [next(iter(node.attributes[b].as_graph().initializers.values())).const_value for b in ("then_branch", "else_branch")]
+                latest = [(e, w[0], w[1]) for e, w in zip(ext, want)]
+                for e, w in zip(ext, want):
+                    if e.nbytes != len(w[0]) or e.dtype != dt:
+                        bad.append(("external_tensor_reports_wrong_dtype_or_size", f"step {k} {op}: nbytes={e.nbytes} want {len(w[0])}"))
+            elif op in ("R0", "R1"):
+                if latest is None:
+                    continue
+                t, wb, wv = latest[int(op[1])]
+                keep.append(t)
+                try:
+                    gb = t.tobytes()
+                    gv = np.asarray(t.numpy())
+                except Exception as e:  # noqa: BLE001
+                    bad.append(("reading_a_written_external_tensor_raises", f"step {k} {op}: {type(e).__name__}: {e}"))
+                    continue
+                if gb != wb:
+                    bad.append(("written_external_tensor_reads_other_bytes", f"step {k} {op}: got {gb.hex()} want {wb.hex()}"))
+                elif not np.array_equal(gv.view(np.uint8) if gv.dtype.itemsize == 1 else gv, wv.view(np.uint8) if wv.dtype.itemsize == 1 else wv):
+                    bad.append(("written_external_tensor_reads_other_values", f"step {k} {op}"))
+                del gb, gv
+            elif op == "X0":
+                if latest is not None and hasattr(latest[0][0], "release"):
+                    try:
+                        latest[0][0].release()
+                    except BufferError:
+                        pass  # an exported view is still alive somewhere: the mapping simply stays open
+            elif op == "GC":
+                gc.collect()
+    finally:
+        for t in keep:
+            try:
+                t.release()
+            except Exception:  # noqa: BLE001
+                pass
+        shutil.rmtree(root, ignore_errors=True)
+    return bad
+
+
+def _xh_work(task):
+    names, entry, dtype_name, depth, first = task
+    import itertools
+
+    found = {}
+    n = 0
+    for rest in itertools.product(XH_OPS, repeat=depth - 1):
+        h = (first,) + rest
+        if not any(o.startswith("R") for o in h):
+            continue
+        n += 1
+        for clause, detail in _xh_run(h, names, entry, dtype_name):
+            found.setdefault(f"{clause}|{entry}|names_{names}", {"dtype": dtype_name, "clause": clause, "label": f"external_history[{entry},names={names}]", "detail": f"history={list(h)} {detail}",
+                                                                 "history": list(h), "names": names, "entry": entry})
+    return n, found
+
+
+def external_history_checks(tier):
+    depth = 4 if tier == "quick" else 5
+    tasks = [(names, entry, dn, depth, first) for names in ("same", "distinct") for entry in ("convert", "save_load") for dn in ("FLOAT", "FLOAT16") for first in ("W_A", "W_C")]
+    res = common.pmap(_xh_work, tasks, chunksize=1)
+    found = {}
+    for _, f in res:
+        for k, v in f.items():
+            found.setdefault(k, v)
+    return sum(a for a, _ in res), found, {"alphabet": XH_OPS, "depth": depth, "configurations": len(tasks)}
+
+
+
 def table_checks():
     out = []
     for d in DT:
@@ -663,6 +782,10 @@ def main(tier):
     for k, v in kc_found.items():
         found.setdefault(k, v)
     nck += kc_exec
+    xh_exec, xh_found, xh_info = external_history_checks(tier)
+    for k, v in xh_found.items():
+        found.setdefault(k, v)
+    nck += xh_exec
     for clause, name, detail in table_checks():
         found.setdefault(f"{clause}|{name}", {"dtype": name, "clause": clause, "label": "table", "detail": str(detail)})
     # string tensors: values only (ONNX has no byte form for them)
@@ -682,12 +805,13 @@ def main(tier):
             except Exception as e:  # noqa: BLE001
                 found.setdefault(f"raises|{label}|STRING", {"dtype": "STRING", "shape": list(shape), "clause": "raises", "label": label, "detail": f"{type(e).__name__}: {e}"})
     for key, f in sorted(found.items()):
-        r.violation(key, f"{f['clause']} [{f['label']}]: {f['detail']}", {"engine": "E6", "input": {k: f.get(k) for k in ("dtype", "shape", "patterns")}, "oracle": f["clause"], "label": f["label"], "detail": f["detail"]})
+        r.violation(key, f"{f['clause']} [{f['label']}]: {f['detail']}", {"engine": "E6", "input": {k: f.get(k) for k in ("dtype", "shape", "patterns")}, "oracle": f["clause"], "label": f["label"], "detail": f["detail"], **({"history": f["history"], "names": f["names"], "entry": f["entry"]} if "history" in f else {})})
     r.sample({"dtype": "INT4", "shape": [5], "patterns": [0, 15, 8, 7, 1], "representations": "Tensor/PackedTensor/TensorProtoTensor(raw,int32)/ExternalTensor(5 offsets)/LazyTensor/ir.tensor/serde"})
     r.sample({"dtype": "BFLOAT16", "shape": [2, 3], "patterns": [0x7FC0, 0xFF80, 1, 0x8000, 0x3F80, 0xFFFF]})
     r.coverage.update({
         "evaluations": nck, "distinct_nontrivial": ncase,
         "rule": "a case is (dtype, shape, bit-pattern fill); every case is pushed through every representation and 6 tofile destinations; evaluations = (case, representation) pairs checked; distinct_nontrivial = distinct (dtype, shape, fill) cases",
+        "external_write_read_histories": xh_exec, "external_histories": xh_info,
         "kernel_copy_executions": kc_exec, "kernel_copy_distinct_answer_sequences": kc_out, "kernel_copy": kc_info,
         "exhaustive": True, "dtypes": len(ALL_DTYPES) + 1, "shapes": [list(s) for s in SHAPES],
         "cases_where_onnx_reference_decoder_confirms_the_reference_bytes": onnx_cross,
@@ -701,6 +825,9 @@ def main(tier):
 
 def replay(obj):
     inp = obj["input"]
+    if obj.get("history"):
+        bad = _xh_run(tuple(obj["history"]), obj["names"], obj["entry"], inp["dtype"])
+        return (not [b for b in bad if b[0] == obj["oracle"]]), bad[:3]
     if not inp.get("patterns") and inp.get("shape") is None:
         return True, "table/string case: rerun the check"
     dtype = DT[inp["dtype"]]
